@@ -430,11 +430,26 @@ _ADDED7 = {
 }
 for _k, _v in _ADDED7.items():
     CLAIMS[_k]["text"] = CLAIMS[_k]["text"] + _v
+_ADDED8 = {
+    "C02": " (L14) the composite copy walks and copies every node unconditionally (shared C05.K3); (L15) a graph node's hash does not involve the wrapped operation.",
+    "C03": " (H10) the node of an operation is found by identity, over all nodes.",
+    "C07": " A4 also reports a way out that answers with an empty result without consulting the listing.",
+    "C08": " (S8) the count the exporter multiplies by is computed when read, not memoised (shared C06.U5).",
+    "C09": " (P14) = C06.U5 for the exported, unrolled circuit.",
+    "C11": " (F10) the block's de-duplicated channel listing loses nothing (shared C01.R13).",
+    "C13": " (M9) every round is unrolled at every depth before it is flattened (shared C06.U4).",
+    "C14": " N2 also reports a way out that hands the measurement back undressed.",
+    "C15": " (O9) = C06.U5 for the OpenQL export.",
+    "C16": " Q6 also reports a way out of construct_allowed_gate_sequences that emits a grouping without the acceptance test.",
+    "C19": " I2 also decides that no class test on the qubits of an edge is narrower than the IQubitID interface; I4 separates re-assembly from element-keyed tables (violation) from unread shapes.",
+}
+for _k, _v in _ADDED8.items():
+    CLAIMS[_k]["text"] = CLAIMS[_k]["text"] + _v
 for _k in ("C01", "C02", "C04", "C05", "C06", "C07", "C08", "C09", "C10", "C11", "C13", "C15", "C18"):
     CLAIMS[_k]["text"] = CLAIMS[_k]["text"] + _DEPTH
-_PY = (" Every check also runs seven lints for slips of the Python data model (qcolint/pylints.py; rules <id>.PY1..PY7) over the files the property's anchors name: "
+_PY = (" Every check also runs eleven lints for slips of the Python data model (qcolint/pylints.py; rules <id>.PY1..PY11) over the files the property's anchors name: "
        "late-binding closures that escape their loop, one-shot iterators consumed twice, containers stored and then changed in place, replicated / default mutables, and truth "
-       "tests of Optional[T] values whose T has falsy members, float-typed values stored into integer arrays, and dataclasses that derive a defaulted init field in __post_init__. Each reports only the shape in which the slip is certain; "
+       "tests of Optional[T] values whose T has falsy members, float-typed values stored into integer arrays, dataclasses that derive a defaulted init field in __post_init__, unchained __post_init__ / __init__ overrides, groupby over unsorted input stored by key, memoised accessors over mutable container fields, and un-annotated class attributes that shadow inherited dataclass fields. Each reports only the shape in which the slip is certain; "
        "each lint must fire on a positive example and stay silent on its negative twin on every run (qcolint/pylints_examples.py).")
 for _k in list(CLAIMS):
     CLAIMS[_k]["text"] = CLAIMS[_k]["text"] + _ADDED4.get(_k, "")
